@@ -438,11 +438,11 @@ def run(tier: str, replay: str | None = None):
         try:
             results = lib.coq_eval(HEADER, [r["term"] for r in rows], name="c03", shard=150 if tier == "quick" else 400, jobs=6)
             for r, res in zip(rows, results):
-                ca, mem, (variadic, dedup, fro, nonstr, strb) = res[0], res[1], res[2]
+                ca, mem, (variadic, dedup, _fro, nonstr, strb) = res[0], res[1], res[2]
                 r["model"], r["spec"] = ca, mem
                 # type_from_runtime drops the unpacking of `*tuple[X, ...]` (the term has no flag), so this clause is read off the input
                 variadic = variadic or "*tuple[" in r["case"]["type"]
-                r["clauses"] = {"variadic_member": variadic, "literal_dedup": dedup, "frozenset_elements": fro, "typeddict_nonstr_key": nonstr,
+                r["clauses"] = {"variadic_member": variadic, "literal_dedup": dedup, "typeddict_nonstr_key": nonstr,
                                 "str_bytes_by_type": strb}
         except (RuntimeError, ValueError) as ex:
             rep.violation({"kind": "broken-correspondence", "correspondence": "Core.CanAssignK/Core.Member evaluation", "detail": str(ex)[-1500:]},
@@ -464,7 +464,7 @@ def run(tier: str, replay: str | None = None):
         if bad_rt or bad_e2e:
             attributed = False
             if "model" in r and r["model"] == r["impl"] and (not bad_e2e or r["e2e"] == (not r["impl"])):
-                for clause in ("variadic_member", "literal_dedup", "frozenset_elements", "typeddict_nonstr_key", "str_bytes_by_type"):
+                for clause in ("variadic_member", "literal_dedup", "typeddict_nonstr_key", "str_bytes_by_type"):
                     fid = f"C03-{clause.replace('_', '-')}"
                     if r["clauses"][clause] and fid in findings:
                         rep.known(fid, findings[fid]["what"])
